@@ -44,6 +44,7 @@ m = {
  "engines": [
   {"name": "tlc", "path": "spec/", "serves_properties": ids, "kind_free_text": "TLA+ specifications (L0 reference, L1 implementation-shaped), MC_* bounded instances and Trace_* trace specifications checked with TLC 1.8"},
   {"name": "harness", "path": "harness/", "serves_properties": ids, "kind_free_text": "Rust crate with path dependencies on /repo; drives the real code and projects its state to ndjson traces; makes no verdicts"},
+  {"name": "apalache", "path": "spec/apalache/", "serves_properties": ["C12"], "kind_free_text": "one typed TLA+ module (unbounded refcount protocol) whose inductive invariant is discharged symbolically by Apalache 0.58 within the C12 check"},
   {"name": "orchestrator", "path": "check", "serves_properties": ids, "kind_free_text": "python3 (stdlib) driver: builds, runs TLC, replays TLC-exported behaviours on the code, validates recorded traces, matches known findings, writes evidence"}
  ],
  "checks": [
@@ -52,7 +53,7 @@ m = {
    "level_claimed": {"category": "model_checking", "text": CHECKS[i]["text"], "design_ref": CHECKS[i]["ref"]},
    "level_note": CHECKS[i]["note"], "technique": CHECKS[i].get("technique", TECH)} for i in ids],
  "not_applicable": [{"property_id": k, "reason": v} for k, v in sorted(NOT_YET.items())],
- "notes": "Properties not yet listed under checks are being built in DESIGN.md section 8 order; none is considered out of reach of the technique."
+ "notes": "All 20 properties are claimed; DESIGN.md section 10 is the as-built record (what each check decides, interpretations, corrected false alarms, repaired defects in known_findings.json, which check detects which seeded change, clauses not covered)."
 }
 json.dump(m, open(os.path.join(ROOT, "MANIFEST.json"), "w"), indent=1)
 print("checks:", ids)
